@@ -339,6 +339,8 @@ def action_sites(F, f, action):
                 if rc == want or (':' not in want and rc.split(':')[0] == want):
                     out.append(bi)
         return sorted(set(out))
+    if action.startswith('errk:'):
+        return sorted(bi for bi, k in error_kind_sites(F, f) if k == action[5:])
     if action == 'err':
         out = set()
         for bi, si, pl, rv, ln in f.stmts():
@@ -462,6 +464,39 @@ def _merge_complementary(sites):
             if changed:
                 break
     return sites
+
+
+def error_kind_sites(F, f):
+    """[(block, kind)] for every `Err(..)` construction / error constructor call whose payload can be named:
+    the enum variant (`UserError::InactiveStreamId` -> 'InactiveStreamId', through `.into()`), or the constructor and its
+    constant reason (`Error::library_go_away(PROTOCOL_ERROR)` -> 'library_go_away:1')"""
+    out = []
+
+    def name_of(e, depth=0):
+        x = strip(e)
+        if depth > 4:
+            return None
+        if x[0] == 'aggr' and x[1] == 'adt':
+            v = str(x[2]).split('::')[-1]
+            if x[3] if len(x) > 3 else None:
+                inner = name_of(x[3][0], depth + 1) if isinstance(x[3], (list, tuple)) and x[3] else None
+                return '%s:%s' % (v, inner) if inner else v
+            return v
+        if x[0] == 'call':
+            short = x[1].split('::')[-1]
+            if short in ('into', 'from') and x[2]:
+                return name_of(x[2][0], depth + 1)
+            ks = [str(c[1]) for a in x[2] for c in core.consts_in(a) if isinstance(c[1], int)][:1]
+            return short + (':' + ks[0] if ks else '')
+        if x[0] == 'const' and len(x) > 2:
+            return str(x[2]).split('::')[-1][:40]
+        return None
+    for bi, si, pl, rv, ln in f.stmts():
+        if rv[0] == 'aggr' and rv[1] == 'adt' and str(rv[2]).endswith('::Err') and rv[3]:
+            k = name_of(f.expr_of_op(rv[3][0]))
+            if k:
+                out.append((bi, k))
+    return out
 
 
 def check_guards(ctx, rid, prop):
